@@ -22,7 +22,7 @@ def run(tier, seed):
     t0 = time.time()
     d = vc.fresh_dir(PID)
     b = build(d)
-    args = [200, 12, 12, 1] if tier == "quick" else [700, 16, 16, 1]
+    args = [700, 16, 16, 1] if tier == "quick" else [1500, 24, 24, 1]   # quick = the former thorough bound
     reps = [vc.run_seqx(b, args, timeout=3000)]
     tot, viol = vc.seqx_collect(PID, "part", reps)
     if tot["evaluations"] < 5000:
